@@ -116,8 +116,10 @@ TgbStates == {[k |-> "tgb", binf |-> a, bsup |-> b] : a \in TgbBnd, b \in TgbBnd
 (* "undefined" for FFFF(): the first sweep is unconstrained.  Intended: no burn-in = no     *)
 (* relaxation.                                                                              *)
 Thresh == 100
-GVals == {-100, -30, -10, -5, 0, 3, 5, 10, 15, 30, 100}
-GPairs == {<<NA, NA>>, <<-10, 0>>, <<5, 15>>, <<NA, -5>>, <<10, NA>>, <<3, 3>>}
+(* (three sites: a smaller alphabet keeps the exhaustive exploration within minutes) *)
+GVals == IF GN <= 2 THEN {-100, -30, -10, -5, 0, 3, 5, 10, 15, 30, 100} ELSE {-100, -10, -5, 0, 3, 10, 100}
+GPairs == IF GN <= 2 THEN {<<NA, NA>>, <<-10, 0>>, <<5, 15>>, <<NA, -5>>, <<10, NA>>, <<3, 3>>}
+          ELSE {<<NA, NA>>, <<-10, 0>>, <<NA, -5>>, <<10, NA>>, <<3, 3>>}
 Hard(p) == p[1] # NA /\ p[1] = p[2]
 (* v within the effective bounds of sweep 'iter' *)
 EffWithin(v, p, iter, nburn, ascoded) ==
